@@ -20,7 +20,7 @@ ProtElem(a) == Enc(IF a = "none" THEN Bstr(<<>>) ELSE Bstr(Enc(Map(<<<<UInt(1), 
 UnprotElem(k) == Enc(Map(<<<<UInt(4), Bstr(KidBytes(k))>>>>))
 PayloadElem(p) == Enc(IF p = "nil" THEN Null ELSE Bstr(PayloadBytes(p)))
 
-BodyProt == <<67, 161, 3, 0>>                      \* body_protected handed to Signature.Sign / Verify
+BodyProt == <<88, 3, 161, 3, 0>>                   \* body_protected handed to Signature.Sign / Verify (non-minimal length prefix)
 InitStep == IF ObjKind = "sig"
             THEN [op |-> "new", obj |-> "m", kind |-> "sig", m |-> [P |-> <<>>, U |-> <<<<GoInt("int64", 4), GoBytes(KidBytes(0))>>>>, sig |-> <<>>]]
             ELSE [op |-> "new", obj |-> "m", kind |-> ObjKind,
